@@ -113,32 +113,4 @@ def listedSess (c : Cfg K V) (s : St K V) (ks : List K) : List (K × Option V) :
   (ks.filter (fun k => !s.deleted c k && (s.sess.bind (alookup k)).isSome)).map
     (fun k => (k, view c s k))
 
-/-! ### the keys an iteration visits (the repaired `State.IterateRange`) -/
-
-/-- `k` lies in `[lo, hi)` (`none` = unbounded) in the byte order -/
-def inRange (c : Cfg K V) (lo hi : Option K) (k : K) : Bool :=
-  (match lo with | none => true | some l => !c.lt k l) &&
-  (match hi with | none => true | some h => c.lt k h)
-
-/-- every key some layer of the state holds: working tree, block cache, open session -/
-def St.allKeys (s : St K V) : List K :=
-  akeys s.tree.working ++ akeys s.cache ++ (match s.sess with | some o => akeys o | none => [])
-
-/-- ascending or descending -/
-def dir (asc : Bool) (ks : List K) : List K := if asc then ks else ks.reverse
-
-/-- "sorted in the direction `asc`" for the byte order `lt` (no later key is smaller / larger) -/
-def SortedDir (lt : K → K → Bool) (asc : Bool) (ks : List K) : Prop :=
-  ks.Pairwise (fun a b => if asc then lt b a = false else lt a b = false)
-
-/-- `lt` is a strict total order (as the byte order of keys is) -/
-structure StrictTotal (lt : K → K → Bool) : Prop where
-  irrefl : ∀ a, lt a a = false
-  trans : ∀ a b c, lt a b = true → lt b c = true → lt a c = true
-  total : ∀ a b, a ≠ b → lt a b = true ∨ lt b a = true
-
-/-- the visible keys of a range, in iteration order: what an iteration is to list -/
-def visKeys (c : Cfg K V) (s : St K V) (lo hi : Option K) (asc : Bool) : List K :=
-  (s.iterKeys c lo hi asc).filter (fun k => (view c s k).isSome)
-
 end OLP.KV
